@@ -7,12 +7,18 @@ import asyncio
 from py_gql import build_schema
 from py_gql.exc import ResolverError
 
+CHANGE_FIELDS = "change: Change, anychange: AnyChange, changes: [Change!]"
+
 SDL = """
-type Query { _: Int, sub(k: Int): Ev, other: Int, nores: Int, echo: String, tick: Int! }
+interface Change { id: ID!, kind: String!, where: String }
+type Created implements Change { id: ID!, kind: String!, where: String, title: String! }
+type Deleted implements Change { id: ID!, kind: String!, where: String, reason: String }
+union AnyChange = Created | Deleted
+type Query { _: Int, sub(k: Int): Ev, other: Int, nores: Int, echo: String, tick: Int!, change: Change, anychange: AnyChange, changes: [Change!] }
 type Mutation { m: Int }
 type Ev { idx: Int!, n: Int!, v: Int, s: String!, o: Inner, on: Inner!, l: [Int!], lo: [Inner!], f: Float }
 type Inner { a: Int, b: Int!, deep: Inner }
-type Subscription { sub(k: Int): Ev, other: Int, nores: Int, echo: String, tick: Int! }
+type Subscription { sub(k: Int): Ev, other: Int, nores: Int, echo: String, tick: Int!, change: Change, anychange: AnyChange, changes: [Change!] }
 """
 
 
@@ -73,6 +79,17 @@ async def echo_resolver_async(root, ctx, info, **args):
     return describe(root)
 
 
+def kind_resolver(root, ctx, info, **args):
+    """reads the ResolveInfo it is given into its result: parent type, field, response path, node count"""
+    return "%s.%s@%s#%d" % (info.parent_type.name, info.field_definition.name,
+                             "/".join(str(p) for p in info.path), len(info.nodes))
+
+
+async def kind_resolver_async(root, ctx, info, **args):
+    await asyncio.sleep(0)
+    return kind_resolver(root, ctx, info, **args)
+
+
 def tick_resolver(root, ctx, info, **args):
     return 1          # ignores the event altogether
 
@@ -120,6 +137,8 @@ def get_schema(flavour, shared=False):
         for tn in ("Query", "Subscription"):
             schema.register_resolver(tn, "echo", echo_resolver_async if flavour == "async" else echo_resolver)
             schema.register_resolver(tn, "tick", tick_resolver_async if flavour == "async" else tick_resolver)
+        for tn in ("Created", "Deleted"):
+            schema.register_resolver(tn, "kind", kind_resolver_async if flavour == "async" else kind_resolver)
         schema.validate()
         _CACHE[flavour] = schema
     return _CACHE[flavour]
@@ -133,6 +152,9 @@ def set_subscription_resolvers(schema, sub_resolver):
     st.field_map["nores"].subscription_resolver = None
     st.field_map["echo"].subscription_resolver = sub_resolver
     st.field_map["tick"].subscription_resolver = sub_resolver
+    for fn in ("change", "anychange", "changes"):
+        if fn in st.field_map:
+            st.field_map[fn].subscription_resolver = sub_resolver
     # a query field that also has a subscription resolver: a query operation must still be refused
     schema.query_type.field_map["sub"].subscription_resolver = sub_resolver
 
@@ -193,7 +215,26 @@ RAW_EVENTS = {
     "raw_obj_null": lambda k: EvObj(sub=None),
     "raw_obj_bare": lambda k: EvObj(),
 }
-RAW_NAMES = sorted(RAW_EVENTS)
+def _created(k):
+    return {"__typename__": "Created", "id": "c%d" % k, "where": "here", "title": "t%d" % k}
+
+
+def _deleted(k):
+    return {"__typename__": "Deleted", "id": "d%d" % k, "where": None, "reason": "r%d" % k}
+
+
+# events whose payload is of an abstract type (interface / union / list of interface): consecutive events of
+# different concrete types at the same response path
+CHANGE_EVENTS = {
+    "created": lambda k: {"change": _created(k), "anychange": _created(k), "changes": [_created(k), _deleted(k)]},
+    "deleted": lambda k: {"change": _deleted(k), "anychange": _deleted(k), "changes": [_deleted(k), _created(k), _deleted(k)]},
+    "created_bad": lambda k: {"change": dict(_created(k), title=None), "anychange": dict(_created(k), title=None),
+                              "changes": [dict(_created(k), title=None)]},
+    "change_null": lambda k: {"change": None, "anychange": None, "changes": None},
+}
+CHANGE_NAMES = sorted(CHANGE_EVENTS)
+RAW_EVENTS.update(CHANGE_EVENTS)
+RAW_NAMES = sorted(k for k in RAW_EVENTS if k not in CHANGE_EVENTS)
 FALSY_RAW = ["raw_none", "raw_zero", "raw_empty_str", "raw_false", "raw_empty_list", "raw_empty_dict"]
 
 
@@ -223,6 +264,10 @@ SELECTIONS.append("subscription { sub { f n v s } }")
 # ... inside list items
 SELECTIONS.append("subscription { sub { idx v lo { a b } l } }")
 SEL_ERR_THEN_ABORT, SEL_ABORT_FIRST, SEL_ABORT_IN_LIST = 10, 11, 12
+SELECTIONS.append("subscription { change { __typename id kind where ... on Created { title } ... on Deleted { reason } } }")
+SELECTIONS.append("subscription { anychange { __typename ... on Created { id kind title } ... on Deleted { kind reason where } } }")
+SELECTIONS.append("subscription C { changes { __typename kind ...T ... on Deleted { reason } } }\nfragment T on Created { title where }")
+SEL_CHANGE, SEL_ANYCHANGE, SEL_CHANGES = 13, 14, 15
 assert SELECTIONS[SEL_ECHO] == "subscription { echo }"
 
 # refusals: (label, text, runtime, operation_name, variables, facts)
